@@ -18,7 +18,8 @@ float use_lin2(const L2 &a, const L2 &b, const vec2f &v, float r)
   L2 ro = L2::rotate(r);
   L2 rc = rcp(a);
   return a.det() + a.adjoint().det() + a.inverse().det() + a.transposed().det() + a.row0().x + a.row1().x +
-         m.det() + w.x + s.det() + ro.det() + rc.det() + (a + b).det() + (a - b).det() + (r * a).det() + (-a).det();
+         m.det() + w.x + s.det() + ro.det() + rc.det() + (a + b).det() + (a - b).det() + (r * a).det() + (-a).det() +
+         a.orthogonal().det() /* a loop: outside the translated subset, emitted as UNSUPPORTED; its callees are translated */;
 }
 
 float use_lin3(const L3 &a, const L3 &b, const vec3f &v, const vec3f &u, float r, const Qf &q)
